@@ -8,6 +8,7 @@ import Bita.Proofs.Http
 import Bita.Proofs.IoReader
 import Bita.Proofs.ReaderEnv
 import Bita.Proofs.StepOrder
+import Bita.Proofs.CliRoundtrip
 
 namespace Bita.Props.C17
 open Bita Bita.Spec
@@ -102,6 +103,24 @@ theorem conforming_archive_clones_through_io_reader (H : Bytes → Bytes) (hH : 
   refine ⟨a, cks, hinit, hd, fun hlen => ?_⟩
   exact Proofs.clone_io_complete H hH decomp features e opts prior seeds a src cks hat ⟨hcs, hlen⟩
     hinit hd hs (by intro pin hp; rw [hpin] at hp; cases hp) hdev hbv
+
+/-- **C17 at the command line** (file-system model): `bita clone` of any conforming archive file into
+a path that does not exist - or over a regular file with `--force-create` / `--seed-output` -,
+with any seed files that exist: success, and exactly the source in the output. -/
+theorem cli_conforming_archive_clones (H : Bytes → Bytes) (hH : ∀ x, (H x).length = 64)
+    (decomp : Nat → Bytes → Nat → Option Bytes) (kc : CloneCmd) (fs : Fs) (an : Node) (src : Bytes)
+    (harch : fs.get kc.archivePath = some an) (hc : Conforms H decomp [] an.data src)
+    (hpin : kc.pin = none)
+    (hout : fs.get kc.output = none ∨
+      ((kc.flags.force = true ∨ kc.flags.seedOutput = true) ∧ ∃ d, fs.get kc.output = some (.regular d)))
+    (hseeds : ∀ p ∈ kc.seedPaths, (fs.get p).isSome ∨ p = kc.output) :
+    ∃ a cks, tryInit H [] (honestReadAt an.data) = .ok a ∧ Describes H a src cks ∧
+      (((Cli.clone H decomp kc fs).ok = true ∧
+          (Cli.clone H decomp kc fs).fs.get kc.output = some (.regular src)) ∨
+        Collision H a.hashLength cks) := by
+  obtain ⟨a, cks, hinit, hd, hs⟩ := hc
+  exact ⟨a, cks, hinit, hd,
+    Proofs.clone_conforming_fs H hH decomp kc fs an a src cks harch hinit hd hs hpin hout hseeds⟩
 
 /-! Non-vacuity: a hand-laid archive - legacy magic is covered by the correspondence runs; here:
 chunk data offset with slack, stored chunks in descending order with a gap - conforms and is
